@@ -26,7 +26,7 @@ from .report import run_check
 def _copy_tree(root: str, dst: str) -> None:
     src = os.path.join(root, 'panqec')
     shutil.copytree(src, os.path.join(dst, 'panqec'),
-                    ignore=shutil.ignore_patterns('__pycache__', '*.pyc', 'js', 'static', 'templates'))
+                    ignore=shutil.ignore_patterns('__pycache__', '*.pyc', 'static', 'templates'))
 
 
 def _apply_patch(dst: str, patch_rel: str) -> Optional[str]:
